@@ -390,6 +390,32 @@ def gen_semi(rng):
     return {"kind": "semi", "X": c["X"], "Y": c["Y"], "U": U, "metric": c["metric"]}
 
 
+def gen_semi_bridge(rng):
+    """labelled samples of two classes far apart, an unlabeled chain leading from one class right up to a labelled
+    sample of the other class, and unlabeled samples beyond it (their optimum path passes through that labelled sample)"""
+    step = rng.choice([0.5, 1.0])
+    far = rng.choice([4, 6, 8])
+    X = [[0.0, 0.0], [0.0, float(far)], [3.0, 0.0]]
+    Y = [0, 0, 1]
+    if rng.random() < 0.5:
+        X.append([5.0, -1.0])
+        Y.append(1)
+    U = []
+    y = step
+    while y < far - 1e-9:
+        U.append([3.0, round(y, 3)])
+        y += step
+    x = 3.0 - step
+    while x > step - 1e-9:
+        U.append([round(x, 3), float(far)])
+        x -= step
+    for k in range(rng.randint(1, 3)):
+        U.append([round(-step * (k + 1), 3), float(far)])
+    if rng.random() < 0.5:
+        rng.shuffle(U)
+    return {"kind": "semi", "X": X, "Y": Y, "U": U, "metric": rng.choice(["euclidean", "manhattan", "squared_euclidean"])}
+
+
 def nontrivial(case):
     if case["kind"] == "history":
         return True
@@ -415,7 +441,9 @@ def explore(tier="quick", prop="C01"):
         cases = tiny if tier == "thorough" else tiny[::3]
         for i in range(n_cases):
             r = i % 8
-            if prop == "C15" and r < 6:
+            if prop == "C15" and r < 2:
+                cases.append(gen_semi_bridge(rng))
+            elif prop == "C15" and r < 6:
                 cases.append(gen_semi(rng))
             elif r < 4:
                 cases.append(gen_precomputed(rng, ["ties012", "ties123", "wide", "distinct"][r]))
